@@ -88,7 +88,7 @@ func init() {
 	regE("C16", "published pots partition the chips", 32000)
 	props["C16"].World = func() sim.World { return engine.Mixed{} }
 	props["C16"].WorldName = "E+P"
-	for id, n := range map[string]int64{"C01": 1600, "C02": 1200, "C07": 2400, "C10": 1600, "C14": 1600, "C15": 640, "C16": 1200} {
+	for id, n := range map[string]int64{"C01": 1600, "C02": 1200, "C04": 1000, "C05": 1000, "C06": 1000, "C07": 2400, "C10": 1600, "C11": 1000, "C12": 1000, "C13": 1000, "C14": 1600, "C15": 640, "C16": 1200} {
 		props[id].Conc = n
 	}
 	registerOther()
